@@ -151,7 +151,7 @@ BorrowTake(r) ==
        ELSE /\ st' = [st EXCEPT ![r] = "nohost"]
             /\ on' = [on EXCEPT ![r] = 0]
             /\ UNCHANGED inflight
-    /\ act' = A("BorrowTake", r, 0, FALSE)
+    /\ act' = A("BorrowTake", r, on[r], FALSE)        \* c: the connection picked earlier
     /\ UNCHANGED <<orph, reg, owed, thr, closed, defunct, signaled, pvars>>
 
 (* send_msg; on a dead connection ConnectionShutdown, _query returns it *)
@@ -355,13 +355,15 @@ CurNotTrashed == cur = 0 \/ cur \notin trash
 
 (* vacuity witnesses: each must be violated (= reachable) *)
 Witness_Trashed == trash = {}
-Witness_TrashClosedByReturn == ~(act.name \in {"Respond", "Timeout"} /\ \E c \in Conns : closed[c] /\ ~defunct[c] /\ ~shutdown /\ thr[c] /\ c # rep.old /\ act.name = "Respond")
-Witness_TrashClosedByTimeout == ~(act.name = "Timeout" /\ ~shutdown /\ \E c \in Conns : closed[c] /\ ~defunct[c] /\ c = on[act.r])
+Witness_TrashClosedByRespond == ~(act.name = "Respond" /\ ~shutdown /\ closed[act.c] /\ ~defunct[act.c])
+Witness_TrashClosedByTimeout == ~(act.name = "Timeout" /\ ~shutdown /\ closed[on[act.r]] /\ ~defunct[on[act.r]])
 Witness_PublishAfterShutdown == ~(act.name = "ReplacePublish" /\ shutdown)
-Witness_ShutdownWithTrash == ~(act.name = "ShutdownCloseTrash" /\ \E c \in Conns : closed[c] /\ c # 1 /\ FALSE) /\ ~(sd = "curclosed" /\ trash # {})
+Witness_ShutdownWithTrash == ~(sd = "curclosed" /\ trash # {})
 Witness_RetireAfterShutdown == ~(rep.ph = "retire" /\ shutdown /\ thr[rep.old] /\ ~closed[rep.old] /\ Live(rep.old) > 0)
 Witness_CapacityRefusal == ~(act.name = "BorrowTake" /\ st[act.r] = "nohost" /\ \E c \in Conns : ~closed[c] /\ inflight[c] = MaxId)
-Witness_FailedOldWhileCurrentHealthy == ~(act.name = "ConnFails" /\ ~act.f /\ cur # 0 /\ cur # act.c /\ signaled[act.c] /\ ~shutdown)
-Witness_Repick == ~(act.name = "BorrowTake" /\ st[act.r] = "borrowed" /\ \E c \in Conns : c # on[act.r] /\ thr[c] /\ closed[c] /\ ~defunct[c])
+Witness_FailedOldWhileCurrentHealthy ==
+    ~(act.name = "ConnFails" /\ ~act.f /\ signaled[act.c] /\ cur # 0 /\ cur # act.c /\ ~shutdown /\ ~closed[cur])
+Witness_Repick == ~(act.name = "BorrowTake" /\ st[act.r] = "borrowed" /\ on[act.r] # act.c)
+Witness_InlineShutdown == ~(act.name \in {"ConnFails", "Send"} /\ act.f /\ sd = "done" /\ opened >= 2)
 Witness_QuiescentAllClosed == ~(Quiescent /\ opened >= 2)
 =============================================================================
